@@ -10,7 +10,11 @@ Open Scope N_scope.
 Definition fnv_prime : N := 1099511628211.
 Definition fnv_offset : N := 14695981039346656037.   (* Init64; NOT used by the verifier *)
 
-Definition fnv_step (h b : N) : N := (N.lxor h b * fnv_prime) mod two64.
+(* (h xor b) * prime mod 2^64.  Written as a mask and with the (sparse) prime as
+   the left factor so that the extracted binary arithmetic is fast;
+   FnvFacts.fnv_step_mod shows it is ((h xor b) * prime) mod 2^64. *)
+Definition mask64 : N := 18446744073709551615.
+Definition fnv_step (h b : N) : N := N.land (fnv_prime * N.lxor h b) mask64.
 
 Definition fnv_add (h : N) (bs : bytes) : N := fold_left fnv_step bs h.
 
